@@ -71,7 +71,7 @@ fn impl_lookup_sets_subset() -> bool {
     match code.find("pub fn lookup") { Some(i) => code[i..].chars().take(600).collect::<String>().contains(".subset = subset"), None => false }
 }
 
-fn impl_reset_variant() -> &'static str {
+pub fn impl_reset_variant() -> &'static str {
     static V: std::sync::OnceLock<&'static str> = std::sync::OnceLock::new();
     *V.get_or_init(|| {
         let p = format!("{}/src/analysis/stateful_tokenizer.rs", crate::c07::repo_sudachi_dir());
